@@ -40,7 +40,7 @@ func NewArray(
 	size := 1
 	for i := len(dimensions) - 1; 0 <= i; i-- {
 		a.sizes[i] = size
-		if ArrayMaxDimension < dimensions[i] {
+		if dimensions[i] < 0 || ArrayMaxDimension < dimensions[i] {
 			TypePanic(NewScope(), 0, "dimension", Fixnum(dimensions[i]),
 				fmt.Sprintf("positive fixnum less than %d", ArrayMaxDimension))
 		}
